@@ -81,6 +81,20 @@ fn changed_timestamp_ms(file: &FileMetadata) -> u64 {
     }
 }
 
+/// Returns the time of the last change of the status of the file, where it is known
+fn changed_time(file: &FileMetadata) -> Option<SystemTime> {
+    #[cfg(unix)]
+    {
+        use std::os::unix::fs::MetadataExt;
+        let since_epoch = Duration::new(file.ctime().try_into().ok()?, file.ctime_nsec() as u32);
+        UNIX_EPOCH.checked_add(since_epoch)
+    }
+    #[cfg(not(unix))]
+    {
+        file.created().ok()
+    }
+}
+
 /// Returns true if a file with the given modification time could be modified again at the
 /// time `now` without getting a different modification time.
 fn is_racy(modified: SystemTime, now: SystemTime) -> bool {
@@ -156,6 +170,13 @@ impl HashCache {
         // What counts is the time the metadata were read at, the data were read after that.
         if is_racy(modified, file.read_at()) {
             return Ok(());
+        }
+        // The same applies to the change time, which tells the file apart from another one
+        // that gets its identifier: a file created in the same second has the same change time.
+        if let Some(changed) = changed_time(file) {
+            if is_racy(changed, file.read_at()) {
+                return Ok(());
+            }
         }
         let value = CachedFileInfo {
             modified_timestamp_ms: timestamp_ms(modified),
